@@ -24,7 +24,7 @@ GC_EVERY = 20
 
 
 def configs(tier, seed):
-    n = 700 if tier == 'quick' else 10000
+    n = 2500 if tier == 'quick' else 30000
     return [{'name': impl + '-chain', 'impl': impl, 'mode': 'hyp', 'n': n}
             for impl in ('c', 'py')]
 
@@ -55,10 +55,14 @@ def case_strategy(draw):
     while len(bp['regs']) < 2:
         bp['regs'].append({'bases': [len(bp['regs']) - 1],
                            'flavour': bp['regs'][0]['flavour']})
-    # deeper chains: every registry after the first has at least one base
+    while len(bp['regs']) < 3 and draw(st.booleans()):
+        bp['regs'].append({'bases': [len(bp['regs']) - 1],
+                           'flavour': bp['regs'][-1]['flavour']})
+    # deeper chains: most registries sit directly below their predecessor
     for r, spec in enumerate(bp['regs']):
-        if r and not spec['bases']:
-            spec['bases'] = [draw(st.integers(0, r - 1))]
+        if r and (not spec['bases'] or draw(st.integers(0, 9)) < 5):
+            extra = [b for b in spec['bases'] if b != r - 1][:1]
+            spec['bases'] = [r - 1] + (extra if draw(st.booleans()) else [])
     kind = draw(st.sampled_from(['registries', 'registries', 'components']))
     ops = [draw(op_strategy()) for _ in range(draw(st.integers(6, 30)))]
     return {'bp': bp, 'kind': kind, 'ops': ops}
@@ -127,7 +131,10 @@ def run_case(case, cfg, out):
     for n, op in enumerate(case['ops']):
         kind = op[0]
         if kind == 'rebase':
-            r = op[1] % nR
+            deepones = [x for x in range(nR) if any(
+                (depth_below(y, x) or 0) >= 2 for y in range(nR))]
+            pool = list(range(nR)) + deepones * 3
+            r = pool[op[1] % len(pool)]
             below = {x for x in range(nR) if r in M.ro(x)}
             cands = [x for x in range(nR) if x not in below and (
                 U.flavours[r] != 'plain' or U.flavours[x] == 'plain')]
